@@ -106,3 +106,9 @@ Lemma bh_reads_as_type t : so_type (as_so (MBH (mkBH t))) = i32_of_u64 (u64_of_i
 Proof.
   unfold as_so, dec_so, fields_of, fields_bh. cbn [bh_target so_type]. simp_get. reflexivity.
 Qed.
+
+Lemma own_type_lemma m : pmsg_ok m ->
+  match m with
+  | MSH x => as_sh m = x | MSO x => as_so m = x | MBH x => as_bh m = x | MCT x => as_ct m = x
+  end.
+Proof. destruct m as [x|x|x|x]; intros H; [apply as_sh_own|apply as_so_own|apply as_bh_own|apply as_ct_own]; exact H. Qed.
